@@ -242,6 +242,10 @@ def run(repo: Repo, rep: Report, tier: str) -> None:
     from rules import c10
 
     gen = repo.func(c10.GEN)
+    from sa.flatten import flatten as _flgen
+
+    # the comparison step may have been extracted into a helper of the class (`if self._differs_from_existing(...)`): write it out
+    gen = _flgen(gen, select=lambda h: any(isinstance(c.func, ast.Attribute) and c.func.attr == "_show_diffs" for c in calls_in(h.node)))
     sw, atoms, _ = c10.find_mode_switch(gen)  # type: ignore[misc]
     env0 = {a: True for a in atoms}
     env0["force"] = False
